@@ -34,10 +34,10 @@ def expected_positions(schedule, chains, key_index):
     return np.stack(out, axis=1), (np.stack(post, axis=1) if post else None)
 
 
-def engine_case(col, schedule, chunk, chains, kernels, store_ks):
-    inp = {"schedule": schedule, "chunk": chunk, "chains": chains, "kernels": kernels, "store_kernel_states": store_ks}
+def engine_case(col, schedule, chunk, chains, kernels, store_ks, needs_history=(False, False)):
+    inp = {"schedule": schedule, "chunk": chunk, "chains": chains, "kernels": kernels, "store_kernel_states": store_ks, "needs_history": list(needs_history)}
     try:
-        eng = make_engine(schedule, chunk, chains, kernels, store_kernel_states=store_ks)
+        eng = make_engine(schedule, chunk, chains, kernels, store_kernel_states=store_ks, needs_history=needs_history)
         eng.sample_all_epochs()
         res = eng.get_results()
         samples = res.get_samples()
@@ -80,6 +80,35 @@ def engine_case(col, schedule, chunk, chains, kernels, store_ks):
         return None
     col.add(None)
     return {k: np.asarray(v) for k, v in samples.items()}
+
+
+def accessor_aliasing_case(col, schedule, chunk):
+    """what the accessors return is the caller's to modify: after editing / deleting entries of a returned dict (as gs.Summary does with its own copy of
+    the posterior samples), the accessors still return exactly the stored, tracked quantities"""
+    import liesel.goose as gs
+    inp = {"schedule": schedule, "chunk": chunk}
+    eng = make_engine(schedule, chunk, 2, 2)
+    eng.sample_all_epochs()
+    res = eng.get_results()
+    ref_post = {k: np.array(v) for k, v in res.get_posterior_samples().items()}
+    ref_all = {k: np.array(v) for k, v in res.get_samples().items()}
+    first = res.get_posterior_samples()
+    first["derived"] = first["p0"] * 2
+    del first["p1"]
+    first["p0"] = np.zeros_like(np.asarray(first["p0"]))
+    try:
+        gs.Summary(res, deselected=["p1"])
+    except Exception:
+        pass
+    try:
+        again = {k: np.asarray(v) for k, v in res.get_posterior_samples().items()}
+        all_again = {k: np.asarray(v) for k, v in res.get_samples().items()}
+    except Exception as e:
+        col.add({"sig": "native::chain::accessor_aliasing", "what": f"after editing a returned dict the accessors raise {type(e).__name__}: {str(e)[:120]}", "input": inp})
+        return
+    ok = sorted(again) == sorted(ref_post) and all(np.array_equal(again[k], ref_post[k]) for k in ref_post) and sorted(all_again) == sorted(ref_all) and all(np.array_equal(all_again[k], ref_all[k]) for k in ref_all)
+    col.add(None if ok else {"sig": "native::chain::accessor_aliasing", "what": f"after editing the dict returned by get_posterior_samples() (and gs.Summary(deselected=['p1'])) the accessor returns keys {sorted(again)} "
+                             f"(tracked: {sorted(ref_post)}); values unchanged: { {k: bool(np.array_equal(again[k], ref_post[k])) for k in again if k in ref_post} }", "input": inp})
 
 
 class ClockKernel(RecordingKernel):
@@ -202,6 +231,17 @@ def bounded(tier, seed):
                     ref = out
                 elif any(not np.array_equal(ref[k], out[k]) for k in ref):
                     col.add({"sig": "native::chain::chunk_dependence", "what": "stored results differ between chunk sizes for key-ignoring kernels", "input": {"schedule": s, "chunk": chunk}})
+    # accessors hand out data the caller may modify (single stored chunk: posterior duration = chunk size; and several chunks)
+    for s, ch in (([(0, 1, 1), (3, 8, 1), (4, 8, 2)], 8), ([(0, 1, 1), (3, 4, 1), (4, 8, 2)], 4)):
+        try:
+            accessor_aliasing_case(col, s, ch)
+        except Exception as e:
+            col.add({"sig": f"native::chain::exception::{type(e).__name__}", "what": str(e)[:200], "input": {"schedule": s, "scenario": "accessor aliasing"}})
+        n_cases += 1
+    # the same storage rule when a kernel asks for the tuning history (thinned warmup epochs of every type, incl. BURNIN)
+    for s in ([(0, 1, 1), (3, 6, 3), (4, 6, 2)], [(0, 1, 1), (1, 4, 2), (3, 8, 4), (2, 8, 2), (4, 4, 4)]):
+        engine_case(col, s, 2, 2, 2, store_ks=False, needs_history=(True, False))
+        n_cases += 1
     for s_ in ([(0, 1, 1), (3, 12, 1), (4, 6, 2)], [(0, 1, 1), (1, 4, 1), (4, 8, 4)]):
         try:
             clock_case(col, s_)
@@ -216,7 +256,7 @@ def bounded(tier, seed):
         "distinct_nontrivial": n_cases + (150 if tier == "quick" else 5000),
         "rule": (f"BOUNDED: ListEpochChain.append on seeded random chunk partitions (thinning 1..5, <= 24 states); real Engine with counting kernels (x += 1 per "
                  f"iteration) on {len(scheds)} schedules x chunk sizes dividing the durations (quick: smallest and largest), 2 chains, 2 kernels - stored positions, "
-                 "posterior accessors, transition-info and kernel-state counts, equality across chunk sizes; a clock-reading kernel (x = 1000*epoch + time in epoch) for every chunk size dividing the durations; builder runs for included/excluded keys and tracked shapes. "
+                 "posterior accessors, transition-info and kernel-state counts, equality across chunk sizes; accessors after the caller edited a returned dict / built a Summary with deselected keys (one stored chunk and several); two schedules with thinned FAST / BURNIN / SLOW epochs and a kernel that needs the tuning history; a clock-reading kernel (x = 1000*epoch + time in epoch) for every chunk size dividing the durations; builder runs for included/excluded keys and tracked shapes. "
                  f"seed={seed}"),
         "samples": [{"schedule": scheds[0], "chunks": [1, 6]}, {"included": ["q"], "excluded": ["p1"]}],
         "exhaustive": False,
